@@ -135,7 +135,7 @@ pub fn cases(rng: &mut Rng, tier: &str) -> (Vec<Case>, bool) {
                 8 => ("PRINT RND(0.001)", 0.001),
                 9 => ("PRINT RND(-.5)", -0.5),
                 10 => rng.pick(&[("PRINT RND(1-1)", 0.0), ("PRINT RND(.00000000000000000001)", 1e-20), ("PRINT RND(2^-60)", 8.673617379884035e-19), ("PRINT RND(1/4600000000000000)", 2.1739130434782607e-16), ("PRINT RND(2^-1074)", 5e-324), ("PRINT RND(2^-52)", 2.220446049250313e-16)]),
-                _ => ("PRINT RND(100000)", 100000.0),
+                _ => rng.pick(&[("PRINT RND(100000)", 100000.0), ("PRINT RND(10^400)", f64::INFINITY), ("PRINT RND(9^999 * 2)", f64::INFINITY), ("PRINT RND(1.7976931348623157 * 10^308)", 1.7976931348623157e308)]),
             };
             ops.push(format!("start {}", hexs(text)));
             let (v, ns) = oracle_step(state, arg);
